@@ -31,18 +31,22 @@ type trap struct {
 }
 
 var ctl struct {
+	active   atomic.Bool // fast path: false while no trap is armed and no perturbation is on
 	mu       sync.Mutex
 	armed    *trap
 	delays   []int // perturbation mode: per-arrival delays (cycled); nil = off
 	arrivals int
-	reached  map[string]int
 }
 
 // hook is installed as config.VerifHook once, before any test runs.
 func hook(name string) {
+	if !ctl.active.Load() {
+		return
+	}
 	ctl.mu.Lock()
 	if t := ctl.armed; t != nil && t.point == name {
 		ctl.armed = nil
+		ctl.active.Store(ctl.delays != nil)
 		ctl.mu.Unlock()
 		close(t.parked)
 		<-t.release
@@ -63,6 +67,7 @@ func arm(point string) *trap {
 	t := &trap{point: point, parked: make(chan struct{}), release: make(chan struct{})}
 	ctl.mu.Lock()
 	ctl.armed = t
+	ctl.active.Store(true)
 	ctl.mu.Unlock()
 	return t
 }
@@ -70,6 +75,16 @@ func arm(point string) *trap {
 func disarm() {
 	ctl.mu.Lock()
 	ctl.armed = nil
+	ctl.active.Store(ctl.delays != nil)
+	ctl.mu.Unlock()
+}
+
+// setDelays switches the perturbation of the yield points on (non-nil) or off.
+func setDelays(d []int) {
+	ctl.mu.Lock()
+	ctl.delays = d
+	ctl.arrivals = 0
+	ctl.active.Store(d != nil || ctl.armed != nil)
 	ctl.mu.Unlock()
 }
 
